@@ -6,10 +6,11 @@ from vlib import build
 from vlib.shim import SAN_ENV, enc
 from vlib.runner import Inconclusive
 
+from vlib.shim import ShimCrash
 ID = "C20"
 LEVEL = "exploration"
 CONFIGS = {"quick": ["san"], "thorough": ["san", "san_nv", "mx_i64"]}
-EXTRA_BUILDS = ["tsan", "tsan_noasm", "so", "so_tsan"]
+EXTRA_BUILDS = ["tsan", "tsan_noasm", "so", "so_tsan", "vg"]
 RULE = ("a probe suite (one fixed-input call of every API family, ~150 calls) is replayed on every live context after each step of random context histories over "
         "{create, preallocated create, clone, preallocated clone, randomize(seed / zero / NULL), install a correct / an incorrect / reset the SHA-256 compression "
         "function, destroy} and must reproduce the golden outputs of a fresh context byte for byte; every probe is run on secp256k1_context_static (child process, "
@@ -234,7 +235,14 @@ def wl_static(ctx, config, probes, gold):
         api = OP_API[op]; is_restricted = api in restricted
         ctx.check(api in allfn, "monitor:unknown_api_function", api, config)
         # (1) byte copy of the static context with counting callbacks
-        r = sh.raw("@%d %s" % (slot, line))
+        try:
+            r = sh.raw("@%d %s" % (slot, line))
+        except ShimCrash as e:
+            # neither the full-context result nor a clean refusal: the call went on with the unbuilt context and died
+            ctx.fail("C20:static_context:%s:crash:%s" % (label, e.kind), "api=%s on a byte copy of secp256k1_context_static\n%s" % (api, e.report[-3000:]), cmds=e.history, config=config)
+            sc = ctx.call("ctx_static_copy", config=config)
+            if sc is None: return
+            slot = sc.i(0); continue
         got = " ".join(r.t) + " | ill=0 err=%d" % r.err
         same = got == gold[label]
         ctx.ev("static_copy", "restricted" if is_restricted else "unrestricted", True, label)
@@ -243,7 +251,13 @@ def wl_static(ctx, config, probes, gold):
         else:
             ctx.check(same and r.ill == 0, "static_context:%s:documented_to_accept_static_context_but_%s" % (label, "reports_illegal_use" if r.ill else "result_differs"), "api=%s want %s got %s ill=%d" % (api, gold[label][:200], got[:200], r.ill), config)
         # (2) the real secp256k1_context_static in a child process (default callbacks abort)
-        r2 = sh.raw("fork_static " + line)
+        try:
+            r2 = sh.raw("fork_static " + line)
+        except ShimCrash as e:
+            ctx.fail("C20:static_context:%s:crash_in_parent:%s" % (label, e.kind), e.report[-3000:], cmds=e.history, config=config)
+            sc = ctx.call("ctx_static_copy", config=config)
+            if sc is None: return
+            slot = sc.i(0); continue
         ctx.ev("static_real", "restricted" if is_restricted else "unrestricted", True, label)
         if r2.t and r2.t[0] == "ABORTED":
             ctx.check(r2.t[1] == "illegal" and is_restricted, "static_context:%s:%s" % (label, "aborted_without_illegal_argument_report" if r2.t[1] != "illegal" else "documented_to_accept_static_context_but_reports_illegal_use"), "api=%s reply=%s" % (api, r2.t), config)
@@ -268,6 +282,10 @@ def wl_threads(ctx, probes):
             for sname, setup in setups:
                 for rep in range(1 if ctx.quick else 4):
                     jobs.append((cfgname, nt, sname, setup, rep))
+    # the production build (inline assembly included, which TSan cannot see) under valgrind's helgrind
+    for nt in ((4,) if ctx.quick else (2, 4, 8)):
+        for sname, setup in (setups[3:] if ctx.quick else setups):
+            jobs.append(("vg", nt, sname, setup, 0))
     tmpd = os.path.join(build.CACHE, "tmp"); os.makedirs(tmpd, exist_ok=True)
     lines_by_cfg = {}
     for cfgname, nt, sname, setup, rep in ctx.mine(jobs):
@@ -280,7 +298,10 @@ def wl_threads(ctx, probes):
         with tempfile.NamedTemporaryFile("w", dir=tmpd, suffix=".script", delete=False) as f: f.write("\n".join(lines) + "\n"); script = f.name
         with tempfile.NamedTemporaryFile("w", dir=tmpd, suffix=".setup", delete=False) as f: f.write("\n".join(setup) + ("\n" if setup else "")); setupf = f.name
         try:
-            r = run_driver(path, ["--threads", str(nt), str(ctx.seed * 1000 + rep), str(rep % 3), script, setupf], {"TSAN_OPTIONS": "halt_on_error=0:exitcode=0:report_signal_unsafe=0"})
+            if cfgname == "vg":
+                r = subprocess.run(["valgrind", "--tool=helgrind", "-q", "--error-exitcode=0", path, "--threads", str(nt), str(ctx.seed * 1000 + rep), "1", script, setupf], capture_output=True, text=True, timeout=1800)
+            else:
+                r = run_driver(path, ["--threads", str(nt), str(ctx.seed * 1000 + rep), str(rep % 3), script, setupf], {"TSAN_OPTIONS": "halt_on_error=0:exitcode=0:report_signal_unsafe=0"})
         except subprocess.TimeoutExpired:
             raise Inconclusive("threads driver timed out")
         finally:
@@ -288,6 +309,11 @@ def wl_threads(ctx, probes):
         m = re.search(r"THREADS n=(\d+) lines=(\d+) calls=(\d+) mismatches=(\d+) overlaps=(\d+) first=(.*)", r.stdout)
         races = r.stderr.count("WARNING: ThreadSanitizer")
         tag = "%s:%dthreads:%s" % (cfgname, nt, sname)
+        if cfgname == "vg":
+            hg = r.stderr.count("Possible data race"); ctx.count("helgrind_runs"); ctx.count("helgrind_reports", hg)
+            if hg:
+                firsth = r.stderr[r.stderr.find("Possible data race"):][:3000]; fr = re.findall(r"(?:at|by) 0x[0-9A-F]+: (\S+)", firsth)[:2]
+                ctx.fail("C20:threads:data_race_helgrind:%s" % "/".join(fr), "%s: %d helgrind reports\n%s" % (tag, hg, firsth), cmds=lines[:5], config=cfgname)
         if not m:
             ctx.fail("C20:threads:%s:driver_failed" % cfgname, "rc=%d\n%s\n%s" % (r.returncode, r.stdout[-1500:], r.stderr[-3000:]), cmds=[path + " --threads ..."], config=cfgname); continue
         calls, mism, ov = int(m.group(3)), int(m.group(4)), int(m.group(5))
